@@ -148,6 +148,12 @@ pub struct AssemblyCode {
     code: Vec<AsmLine>,
 }
 
+// Two immediate operands that are spelled differently hold different values only when both
+// are plain numbers (`#<table` is a number that only the assembler knows)
+fn numeric_immediate(operand: &str) -> bool {
+    operand.len() > 1 && operand.starts_with('#') && operand[1..].chars().all(|c| c.is_ascii_digit())
+}
+
 impl AssemblyCode {
     pub fn new() -> AssemblyCode {
         AssemblyCode {
@@ -496,7 +502,11 @@ impl AssemblyCode {
                                     }
                                 }
                                 AsmMnemonic::BEQ => {
-                                    if *r != i1.dasm_operand && !i2.protected {
+                                    if *r != i1.dasm_operand
+                                        && numeric_immediate(r)
+                                        && numeric_immediate(&i1.dasm_operand)
+                                        && !i2.protected
+                                    {
                                         remove_both = !followed_by_branch;
                                     }
                                 }
@@ -517,7 +527,11 @@ impl AssemblyCode {
                                     }
                                 }
                                 AsmMnemonic::BEQ => {
-                                    if *r != i1.dasm_operand && !i2.protected {
+                                    if *r != i1.dasm_operand
+                                        && numeric_immediate(r)
+                                        && numeric_immediate(&i1.dasm_operand)
+                                        && !i2.protected
+                                    {
                                         remove_both = !followed_by_branch;
                                     }
                                 }
@@ -538,7 +552,11 @@ impl AssemblyCode {
                                     }
                                 }
                                 AsmMnemonic::BEQ => {
-                                    if *r != i1.dasm_operand && !i2.protected {
+                                    if *r != i1.dasm_operand
+                                        && numeric_immediate(r)
+                                        && numeric_immediate(&i1.dasm_operand)
+                                        && !i2.protected
+                                    {
                                         remove_both = !followed_by_branch;
                                     }
                                 }
